@@ -104,7 +104,7 @@ CLAIMED = {
             "real proc macro and must produce an error-level rustc diagnostic inside the item, never a panic.",
             "Diagnostics level / span are observed from rustc's JSON output, not modelled.", TECH, "DESIGN.md §7 C20"),
 }
-READY = ["C06", "C19"]
+READY = sorted(CLAIMED)
 
 REASON_PENDING = "check under construction (framework being built); will be claimed once its theorem and correspondence run"
 
